@@ -83,6 +83,8 @@ class UnsignedN(struct.Struct):
         return super().unpack(buffer + b'\x00' * (super().size - self.size))
 
     def pack(self, *v):
+        if not 0 <= v[0] < (1 << self.width):
+            raise struct.error(f"argument out of range for a {self.width} bit unsigned integer")
         return super().pack(*v)[:self.size]
 
     @property
@@ -120,6 +122,8 @@ class IntegerN(struct.Struct):
         )
 
     def pack(self, *v):
+        if not -(1 << (self.width - 1)) <= v[0] < (1 << (self.width - 1)):
+            raise struct.error(f"argument out of range for a {self.width} bit signed integer")
         return super().pack(*v)[:self.size]
 
     @property
